@@ -635,7 +635,11 @@ impl TransportManager {
             Protocol::Tcp(_) => match protocol_stack.next() {
                 #[cfg(feature = "websocket")]
                 Some(Protocol::Ws(_)) | Some(Protocol::Wss(_)) => SupportedTransport::WebSocket,
-                Some(Protocol::P2p(_)) => SupportedTransport::Tcp,
+                // The peer ID must be the last component: the transport authenticates the peer
+                // that follows the port whereas the dial is tracked for the last `/p2p` of the
+                // address, so `/tcp/<port>/p2p/<A>/p2p/<B>` would name two different peers.
+                Some(Protocol::P2p(_)) if protocol_stack.next().is_none() =>
+                    SupportedTransport::Tcp,
                 _ =>
                     return Err(Error::TransportNotSupported(
                         address_record.address().clone(),
